@@ -151,6 +151,14 @@ void h_parse_frame(void) {
         /* ---- C07 / C19: well-formedness and the ledger equation are re-established by every frame ---- */
         V_POST("C19.ledger: live memory = records + observations + cached icons", g_led.live == live0 - ST_LIVE(&o) + ST_LIVE(st));
         V_POST("C19.wf-preserved: the record stays well-formed", ST_SHAPE(st));
+#ifdef V_DEBUG_WF
+        V_POST("C19.dbg1", V_RW_OK(st, sizeof(lltd_iface_state)));
+        V_POST("C19.dbg2", v_nodes_ok(st->see_list));
+        V_POST("C19.dbg3", st->see_list_count == v_list_len(st->see_list));
+        V_POST("C19.dbg4", st->see_list_count <= V_LIST_MAX && st->mapper_known <= 1);
+        V_POST("C19.dbg5", ((st->small_icon == NULL) == (st->small_icon_size == 0)));
+        V_POST("C19.dbg6", (st->small_icon == NULL || V_R_OK(st->small_icon, st->small_icon_size)));
+#endif
         /* everything except what the opcode's handler owns is untouched */
         if (!(discovery && op == 0x00) && !(op == 0x08 && discovery)) {
             V_POST("C03.generations-only-by-discover-or-reset", st->mapper_gen_topology == o.mapper_gen_topology && st->mapper_gen_quick == o.mapper_gen_quick);
